@@ -135,21 +135,22 @@ pub fn compound<S: Src, const N: usize>(s: &mut S) {
     }
 }
 
-/// FCI parsers and SDES units.
+/// FCI parsers and SDES units: their input has no RTCP header, so only the clauses about the
+/// error's own fields apply (truncated: expected > actual, too large: expected < actual).
 pub fn fci<S: Src>(s: &mut S) {
     let data: [u8; 16] = s.bytes();
     let len = s.upto(16);
     let d = &data[..len];
     if let Err(e) = <Fir as FciParser>::parse(d) {
-        truthful(&e, d, 0, None);
+        sdes_unit_error(&e);
         assert!(len < 8);
     }
     if let Err(e) = <Sli as FciParser>::parse(d) {
-        truthful(&e, d, 0, None);
+        sdes_unit_error(&e);
         assert!(len < 4);
     }
     if let Err(e) = <Rpsi as FciParser>::parse(d) {
-        truthful(&e, d, 0, None);
+        sdes_unit_error(&e);
     }
     if let Err(e) = <Pli as FciParser>::parse(d) {
         assert!(e == E::TooLarge { expected: 0, actual: len });
